@@ -271,7 +271,7 @@ Section xplain_run.
   Qed.
 
   Lemma exit_cond_plain s w a t0 r d t1 dd : fc s = fcd dd -> t0 <= t1 -> t1 < 18446744073709551616 ->
-    exit_cond c s (set_end (nf sh w a t0 r d) t1) = (thr <? t1 - t0) || w.
+    exit_cond c s (set_end (nf sh w a t0 r d) t1) = (thr <=? t1 - t0) || w.
   Proof.
     intros Hfc Ht Hlt. unfold exit_cond. rewrite Hfc. cbn [fcd ftime]. rewrite N.eqb_refl.
     assert (Hdur : (f_end (set_end (nf sh w a t0 r d) t1) + 18446744073709551616 - f_start (set_end (nf sh w a t0 r d) t1))
@@ -293,7 +293,7 @@ Section xplain_run.
     fc s = fcd dd -> enabled s = true -> t0 <= t1 -> t1 < 18446744073709551616 -> 0 < t1 ->
     (ekinds C a = [] \/ t0 < t1) -> asz_ok (o_asz o0) ->
     x_leave C s X t1 o1 =
-    if (thr <? t1 - t0) || w then
+    if (thr <=? t1 - t0) || w then
       emit (set_xs X axs)
            ((if w then [] else fst (xflush_anc anc axs []) ++
                                [IR {| r_time := t0; r_type := ENTRY; r_depth := r; r_addr := a |}] ++
@@ -313,7 +313,7 @@ Section xplain_run.
     assert (Hnr' : norecord (f_flags (set_end (nf sh w a t0 r d) t1)) = false) by exact Hnr. rewrite Hnr'.
     rewrite Hen. cbn [negb]. rewrite x_watch_off.
     rewrite (exit_cond_plain s w a t0 r d t1 dd Hfc Ht Hlt).
-    destruct ((thr <? t1 - t0) || w) eqn:Dec.
+    destruct ((thr <=? t1 - t0) || w) eqn:Dec.
     2:{ unfold set_pend, set_xs. cbn [pend xs w_inited w_cpu v_copy g_init g_val xout]. rewrite Hp. reflexivity. }
     (* the events of the frame after the diff pass *)
     set (top1 := set_end (nf sh w a t0 r d) t1).
@@ -392,12 +392,12 @@ Section xplain_run.
       { induction ks as [|k r IHk]; intros dd i0 l0 E0; [discriminate|]. cbn [flat_map] in E0.
         destruct k as [a t0 o0 t1 o1 kk]. cbn [xrecs] in E0.
         destruct (gd <=? dd); [apply (IHk dd i0 l0 E0)|].
-        destruct ((thr <? t1 - t0) || negb (is_nil (flat_map (xrecs C thr gd (dd + 1)) kk))).
+        destruct ((thr <=? t1 - t0) || negb (is_nil (flat_map (xrecs C thr gd (dd + 1)) kk))).
         - cbn [app] in E0. inversion E0. eexists. reflexivity.
         - apply (IHk dd i0 l0 E0). }
       destruct (S kids (d + 1) i l E) as [r0 ->]. reflexivity. }
     rewrite N0.
-    destruct ((thr <? t1 - t0) || negb (is_nil (flat_map (recs thr gd (d + 1)) (map strip kids)))); [|reflexivity].
+    destruct ((thr <=? t1 - t0) || negb (is_nil (flat_map (recs thr gd (d + 1)) (map strip kids)))); [|reflexivity].
     cbn [erase flat_map app]. fold (erase (map IE (reads C a t0 o0) ++ flat_map (xrecs C thr gd (d + 1)) kids ++
                                            map IE (diffs C a t1 o0 o1) ++
                                            [IR {| r_time := t1; r_type := EXIT; r_depth := d; r_addr := a |}])).
@@ -414,7 +414,7 @@ Section xplain_run.
     { clear. induction ks as [|k r IHk]; intros dd i0 l0 E0; [discriminate|]. cbn [flat_map] in E0.
       destruct k as [a t0 o0 t1 o1 kk]. cbn [xrecs] in E0.
       destruct (gd <=? dd); [apply (IHk dd i0 l0 E0)|].
-      destruct ((thr <? t1 - t0) || negb (is_nil (flat_map (xrecs C thr gd (dd + 1)) kk))).
+      destruct ((thr <=? t1 - t0) || negb (is_nil (flat_map (xrecs C thr gd (dd + 1)) kk))).
       - cbn [app] in E0. inversion E0. eexists. reflexivity.
       - apply (IHk dd i0 l0 E0). }
     destruct (S ks d i l E) as [r0 ->]. reflexivity.
@@ -575,7 +575,7 @@ Section xplain_run.
         change (f_start (newframe sh a t0 (ridx s) d)) with t0.
         assert (TK : take_eq t0 (reads C a t0 o0) = reads C a t0 o0) by (rewrite reads_eq; apply take_eq_all).
         rewrite TK. reflexivity. }
-      destruct ((thr <? t1 - t0) || negb (is_nil Rk)) eqn:Dec.
+      destruct ((thr <=? t1 - t0) || negb (is_nil Rk)) eqn:Dec.
       + eexists. eexists. split; [reflexivity|]. split.
         * unfold after. cbn [fc enabled cached ridx stack out is_nil].
           repeat split; try assumption; try congruence.
